@@ -28,6 +28,9 @@ func Check05(c CaseHist, r *core.Rec) {
 			// the history continues on a Clone (a copy: the model's URL stays what it is)
 			iu = iu.Clone()
 			r.Class("op:clone")
+			if c.Blind {
+				continue
+			}
 			if d := DiffObs(ObsOf(iu), mu.Obs()); d != "" {
 				r.Failf("after %s: %s", histString(c, i), d)
 				return
@@ -53,8 +56,18 @@ func Check05(c CaseHist, r *core.Rec) {
 		if oc != "end" && oc != "cleared" && oc != "ret:scheme-set" && oc != "ret:host-set" && oc != "ret:port-done" && oc != "ret:filehost-set" {
 			rejected++
 		}
+		if c.Blind && i < len(c.Ops)-1 {
+			continue // looked at only after the last step
+		}
 		if d := DiffObs(ObsOf(iu), mu.Obs()); d != "" {
 			r.Failf("after %s (model outcome %s): %s", histString(c, i), oc, d)
+			return
+		}
+	}
+	if c.Blind {
+		r.Class("blind-history")
+		if d := DiffObs(ObsOf(iu), mu.Obs()); d != "" {
+			r.Failf("after %s: %s", histString(c, len(c.Ops)-1), d)
 			return
 		}
 	}
@@ -64,7 +77,7 @@ func Check05(c CaseHist, r *core.Rec) {
 }
 
 func Gen05(t *rapid.T) CaseHist {
-	c := genHistory(t, histOpts{maxOps: 8, start: "setter", clone: true})
+	c := genHistory(t, histOpts{maxOps: 8, start: "setter", clone: true, blind: true})
 	if len(c.Ops) == 0 {
 		c.Ops = append(c.Ops, Op{Kind: "set", Setter: rapid.IntRange(0, spec.NumSetters-1).Draw(t, "setter0"), Value: ""})
 	}
@@ -73,7 +86,7 @@ func Gen05(t *rapid.T) CaseHist {
 
 var P05 = core.Register(core.Prop[CaseHist]{
 	ID: "C05",
-	Rule: "a start URL (WPT hrefs 45% / grammar 35% / structurally extreme starts 20%) followed by 1..8 (setter, value) steps with values from per-setter pools, WPT new_values, other setters' pools, token soup and arbitrary strings (one step in twelve continues on a Clone of the URL instead, the model's URL staying what it is); " +
+	Rule: "a start URL (WPT hrefs 45% / grammar 35% / structurally extreme starts 20%) followed by 1..8 (setter, value) steps with values from per-setter pools, WPT new_values, other setters' pools, token soup and arbitrary strings (one step in twelve continues on a Clone of the URL instead, the model's URL staying what it is; in a quarter of the histories nothing is read from the URL between the steps and the comparison is made after the last one only); " +
 		"oracle: the same step applied to the reference model's setter algorithms, Href + 9 getters compared after every step; " +
 		"non-trivial = at least 2 steps of which at least one changed the model's serialization and at least one was rejected or only partially applied (guard, failure or override-specific early return); distinct by hash of the whole history",
 	Gen:   Gen05,
